@@ -87,6 +87,16 @@ class Pool:
             with open(p, 'wb') as fh:
                 fh.write(rc.write_p8png(regions, area, rng.choice((8, 16, 33)), base_rows=rows))
             self.items['png'].append({'path': p, 'regions': regions, 'code': code})
+            if i == 3:
+                # a cart as PICO-8 0.2+ saves it: its code area uses the newer compression picotool cannot read; its data sections are
+                # as readable as any (it is only ever named for data sections here)
+                regions, _ = carts.random_regions(rng, 'uniform')
+                regions['music'] = rc.music_mask(regions['music'])
+                p = os.path.join(root, 'newformat-s%d.p8.png' % i)
+                area = b'\x00pxa' + bytes((0, 40, 0, 30)) + carts.random_bytes(rng, 22)
+                with open(p, 'wb') as fh:
+                    fh.write(rc.write_p8png(regions, area + bytes(rc.CODE_SIZE - len(area)), 33))
+                self.items['png'].append({'path': p, 'regions': regions, 'code': b'', 'no_lua': True})
             code = carts.simple_lua(rng, rng.choice((30, 300)))
             if i % 2:
                 # a library-style main file: the chunk ends in a return statement (it is code like any other)
@@ -198,8 +208,10 @@ def run_build(ctx, rng, pool, root, assign, out_state, out_fmt, lua_from_file, r
                 desc[sec] = 'luafile'
                 expected[sec] = src['code']
             else:
-                src = rng.choice(pool.items[choice])
+                src = rng.choice([it for it in pool.items[choice] if not (sec == 'lua' and it.get('no_lua'))])
                 expected[sec] = src['code'] if sec == 'lua' else src['regions'][sec]
+                if src.get('no_lua'):
+                    ctx.feature('section_from_cart_with_newer_code_compression')
             argv += ['--' + sec, src['path']]
             if src.get('trimmed') and sec != 'lua':
                 ctx.feature('section_from_p8_with_short_sections')
@@ -524,6 +536,8 @@ def gates(m, tier):
     if f.get('section_from_p8_with_short_sections', 0) < 10 or f.get('lua_file_ending_in_return', 0) < 5:
         missed.append('sections from .p8 sources with short sections: %d; lua files ending in return: %d' % (
             f.get('section_from_p8_with_short_sections', 0), f.get('lua_file_ending_in_return', 0)))
+    if f.get('section_from_cart_with_newer_code_compression', 0) < 5:
+        missed.append('sections from a cart with the newer code compression: %d' % f.get('section_from_cart_with_newer_code_compression', 0))
     if f.get('arguments_object_reused', 0) < 20:
         missed.append('builds with a reused arguments object: %d' % f.get('arguments_object_reused', 0))
     if f.get('relative_paths', 0) < 20 or f.get('failed_build_before', 0) < 5:
